@@ -186,6 +186,9 @@ with sup_seq_el (e : elem) : bool :=
   match e with
   | El t c o =>
       supported t &&
+      (* an un-contexted required element whose encoding can be empty must be a list
+         (Sequence.decode turns end-of-tags into [] only for lists) *)
+      (match c with None => o || negb (nullable t) || is_list t | Some _ => true end) &&
       match t, c, o with
       | TAnyAtomic, Some _, _ => false                (* never decodable *)
       | (TSeqOf _), _, true => false                  (* absent optional list decodes to [] or None *)
